@@ -85,6 +85,11 @@ CHECKS = {
         technique='runtime differential monitor over the simulated transport on real threads: generated pipelines run through sharded_pipelines_as_iterator and run_pipeline_interleaved on real WorkerPool/PrefetchedCourierServer objects and are compared (batch multiset, exactly one final aggregate, exact integer aggregators) with the in-process run and an independent plain-Python reference; merge_states with every wrong strict_states_cnt must raise',
         text='640 distributed runs per quick run (8k transport calls), 16k thorough; the thorough tier also runs the 186 upstream courier tests against the stand-in as a fidelity suite.',
         note='Fault-free; a case that misses a 120 s watchdog twice is reported as a hang.'),
+    'C06': dict(
+        category='fault_enumeration', design_ref='DESIGN.md §3.4, §4 C06', engine='E4-simulated-courier',
+        technique='runtime monitoring with fault injection: real as_completed / WorkerPool.run / sharded_pipelines_as_iterator over real PrefetchedCourierServer workers on the simulated transport with a dilated clock; a fault plan assigns lost request / lost reply / slow-beyond-deadline / death before / death after / application error to the i-th data-plane call of each worker (all single faults on the first 4 calls of every faultable worker for W<=3 enumerated, pairs sampled); oracle over client-side delivery log vs fault-free reference: exactly-once task results, output batches at least once, exactly one final aggregate equal to the in-process one, application errors surface, workers released',
+        text='About 1k fault plans per quick run, 20k thorough, each executed against the real retry/heartbeat logic.',
+        note='Trusted: transport stand-in and time dilation (S=60). One worker is never faulted. Known finding recorded: a next-batch handler that runs after its deadline can steal a batch from a re-initialised generator.'),
 }
 
 NOT_APPLICABLE = {}
